@@ -46,6 +46,7 @@ type step struct {
 type history struct {
 	Idx    int     `json:"idx"`
 	Name   string  `json:"name,omitempty"`
+	Key    string  `json:"key,omitempty"` // corpus: key of the finding in known_findings.json
 	Core   bool    `json:"core"` // every statement is modelled exactly: values compared with the model too
 	Steps  []*step `json:"steps"`
 	corpus bool
@@ -908,7 +909,7 @@ func main() {
 	}
 	nCore, nRich, nLong := 40, 40, 2
 	if a.Thorough() {
-		nCore, nRich, nLong = 1200, 1200, 12
+		nCore, nRich, nLong = 800, 800, 8
 	}
 	if a.N > 0 {
 		nCore, nRich = a.N, a.N
@@ -986,6 +987,9 @@ func main() {
 			key := fmt.Sprintf("gen:h%d:step%d:%s", h.Idx, i, s.Kind)
 			if h.corpus {
 				key = "corpus:" + h.Name
+				if h.Key != "" {
+					key = h.Key
+				}
 			}
 			fail := func(what string, got, wantv interface{}) {
 				rep.Fail(vh.Failure{Key: key, What: what, Input: map[string]interface{}{"history_tail": srcsUpTo(h, i), "step": i}, Got: got, Want: wantv})
